@@ -41,5 +41,49 @@ def main(argv):
         return 2
 
 
+def _subreaper():
+    """orphans among the processes the check starts (a pool worker or manager process that the code under test left behind) are
+    re-parented to the check instead of init, so that they can be found and removed when the check ends"""
+    try:
+        import ctypes
+        return ctypes.CDLL(None, use_errno=True).prctl(36, 1, 0, 0, 0) == 0   # PR_SET_CHILD_SUBREAPER
+    except Exception:
+        return False
+
+
+def _kill_descendants():
+    """nothing the check started may outlive it (a leftover process keeps the output pipe of the check open)"""
+    import signal
+    me = os.getpid()
+    for _ in range(3):
+        parent = {}
+        for name in os.listdir('/proc'):
+            if name.isdigit():
+                try:
+                    with open(f'/proc/{name}/stat') as f:
+                        parent[int(name)] = int(f.read().rsplit(')', 1)[1].split()[1])
+                except (OSError, ValueError, IndexError):
+                    pass
+        desc = set()
+        frontier = {me}
+        while frontier:
+            frontier = {p for p, pp in parent.items() if pp in frontier and p not in desc and p != me}
+            desc |= frontier
+        if not desc:
+            return
+        for p in desc:
+            try:
+                os.kill(p, signal.SIGKILL)
+            except OSError:
+                pass
+        import time
+        time.sleep(0.1)
+
+
 if __name__ == '__main__':
-    sys.exit(main(sys.argv[1:]))
+    _subreaper()
+    rc = main(sys.argv[1:])
+    sys.stdout.flush()
+    sys.stderr.flush()
+    _kill_descendants()
+    sys.exit(rc)
